@@ -226,7 +226,7 @@ def run(ck):
                 vals = [c_.value_min, c_.value_max, c_.value_max + 0.6, c_.value_min - 0.6, c_.value_max + 1, c_.value_min - 1, c_.value_max + 0.4, 7, 7.6, float("inf"), float("nan"), None, "x"]
                 for v in vals:
                     k += 1
-                    es = ExposeSensor(xk, f"cool{k}", group_address=f"3/{k // 250}/{k % 250}", value_type=t, cooldown=10)
+                    es = ExposeSensor(xk, f"cool{k}", group_address=f"{3 + k // 1750}/{(k // 250) % 7}/{k % 250}", value_type=t, cooldown=10)
                     xk.devices.async_add(es)
                     try:
                         await es.set(base)
